@@ -31,10 +31,17 @@ func init() {
 // Name of the world.
 func (W) Name() string { return "conc" }
 
-// funcsByAddr returns zoo function targets sorted by entry address.
-func funcsByAddr() []int {
+// funcsByAddr returns the targets usable by this world sorted by entry address: zoo functions, or
+// (for C06) the non-generic methods of the method zoo.
+func funcsByAddr(prop string) []int {
 	var out []int
 	for _, t := range hist.Targets {
+		if prop == "C06" {
+			if t.Kind == "method" && !t.Generic && t.Known == "" {
+				out = append(out, t.Idx)
+			}
+			continue
+		}
 		if t.Kind == "func" {
 			out = append(out, t.Idx)
 		}
@@ -52,13 +59,28 @@ func (W) Gen(prop string, seed uint64, tier string) *world.Plan {
 	p.Sched.GrowPermille = []int{0, 10}[r.Intn(2)]
 	p.Sched.MaxGC = 4
 	p.Sched.MaxSteps = 60000
-	byAddr := funcsByAddr()
+	if r.Chance(200) {
+		// fault configuration: a mocker's operation may fail under an injected mprotect error; the
+		// other tasks must keep making progress (no leaked lock) and everything is still restored
+		p.Knobs = map[string]int{"faults": 1}
+		p.Sched.FaultPermille = map[string]int{"mprotect": []int{20, 60}[r.Intn(2)]}
+		p.Sched.FaultKinds = map[string][]int{"mprotect": {1, 2}}
+		p.Sched.MaxFaults = 1 + r.Intn(2)
+	}
+	byAddr := funcsByAddr(prop)
 	// a window of address-adjacent functions so that targets share code pages
 	nM := 2 + r.Intn(3)
 	nC := 1 + r.Intn(3)
 	perM := 1 + r.Intn(3)
 	nS := 1 + r.Intn(3)
 	need := nM*perM + nS
+	for need >= len(byAddr) {
+		perM = 1
+		if nM > 2 {
+			nM--
+		}
+		need = nM*perM + nS
+	}
 	start := int(seed % uint64(len(byAddr)-need))
 	win := append([]int(nil), byAddr[start:start+need]...)
 	// deal the window round-robin so that every mocker's targets sit between steady ones
@@ -249,6 +271,7 @@ func (W) Exec(p *world.Plan, env *world.Env) {
 		switch t.Role {
 		case "mocker":
 			m := hist.NewExec(env, p, t.Ops)
+			m.Faults = p.Knobs["faults"] == 1
 			m.Label = fmt.Sprintf("mocker%d ", idx)
 			m.Foreign = func() []simenv.Region { return allRegions(m) }
 			mockers = append(mockers, m)
@@ -266,7 +289,7 @@ func (W) Exec(p *world.Plan, env *world.Env) {
 					if simcore.InRWXWindow() {
 						simcore.NoteCallerOnRWX()
 						env.Check()
-						if msg := img.CheckPages(true); msg != "" {
+						if msg := img.CheckPages(true); msg != "" && p.Knobs["faults"] != 1 {
 							env.FailAt(fmt.Sprintf("caller%d op#%d", idx, i), "pages/not-executable-midwrite", "%s", msg)
 						}
 					}
@@ -318,6 +341,11 @@ func (W) Exec(p *world.Plan, env *world.Env) {
 			m.Foreign = rest(m)
 			m.Final()
 			done[m] = true
+		}
+		if p.Knobs["faults"] == 1 {
+			// injected failures leave pages RWX and the seam's view apart from the kernel's
+			simenv.RestoreRX(simcore.WritablePages())
+			simcore.ResetPageTable()
 		}
 		env.Check()
 		if msg := img.Check(steady.Regions()); msg != "" {
